@@ -596,7 +596,20 @@ func (m *Machine) spawn(fn value, args []value, pos token.Pos) {
 			m.finish(res)
 			return
 		}
-		m.schedule(true)
+		// handing the baton on may itself end the path (decision budget, a
+		// choice in concrete replay that does not fit): that is a path outcome,
+		// never a crash of the engine
+		func() {
+			defer func() {
+				if r := recover(); r != nil {
+					if pe, ok := r.(pathEnd); ok && pe.kind == "killed" {
+						return
+					}
+					m.finish(r)
+				}
+			}()
+			m.schedule(true)
+		}()
 	}()
 }
 
